@@ -298,4 +298,22 @@ Proof.
   apply rep_nil_teq. apply (close_pairs_rep _ pipes 0 []). exact R1.
 Qed.
 
+(* a capture pipe() that fails (the first or the second one): error, nothing is forked *)
+Theorem capture_fail_error : forall pl sh,
+  capture_fails pl = true ->
+  let r := run_pipeline v fail_at openable pl sh in
+  res_error r = true /\ res_kids r = [].
+Proof.
+  intros pl sh CF. unfold capture_fails in CF. apply andb_true_iff in CF. destruct CF as (EC & FF).
+  unfold run_pipeline.
+  destruct (p_stages pl) as [|st0 more] eqn:ES; [cbn; auto|]. cbn [length] in FF.
+  replace (S (length more) - 1) with (length more) in FF by lia. cbn zeta.
+  destruct (mk_pipes fail_at (length more) 0 sh) as [[sh1 pipes] errored].
+  destruct errored; [cbn; auto|].
+  unfold mk_capture. rewrite EC.
+  destruct (fail_at (length more)) eqn:F1; [cbn; auto|].
+  destruct (p_pipe PCapOut sh1) as [sh2 o].
+  cbn [orb] in FF. rewrite FF. cbn. auto.
+Qed.
+
 End WithOracles.
